@@ -374,7 +374,7 @@ def _parallel(a, b):
   return all(Rat.lift(a[i] * b[j] - a[j] * b[i]).is_zero() for i in range(len(a)) for j in range(i + 1, len(a)))
 
 
-def geometry_preserved(U, rep, tier):
+def geometry_preserved(U, rep, tier, rule='R13.4', nonunit=True):
   """R13.4 [RI]: mjcf._fuse_bodies is abstractly executed on mock documents (symbolic poses, general quaternions)
   and every geom / site / jointed body keeps, relative to its nearest jointed ancestor, exactly the pose MuJoCo gives
   it in the original document (from-to geoms: both end points); the fused jointless bodies are gone."""
@@ -386,7 +386,7 @@ def geometry_preserved(U, rep, tier):
       (a, b) for a in ('both', 'pos', 'quat', 'none') for b in ('both', 'pos', 'quat', 'none')]
   from fractions import Fraction as _F
   special = [(0, 1, 0, 0), (0, 0, 1, 0), (0, _F(3, 5), _F(4, 5), 0), (1, 0, 0, 0), (0, 0, 0, 1), (_F(3, 5), _F(4, 5), 0, 0), (0, 1, 0, 0)]
-  runs = [(v, True, None) for v in kinds] + [(('both', 'both'), False, None), (('quat', 'both'), True, special), (('both', 'quat'), True, special[1:])]
+  runs = [(v, True, None) for v in kinds] + ([(('both', 'both'), False, None)] if nonunit else []) + [(('quat', 'both'), True, special), (('both', 'quat'), True, special[1:])]
   for variant, unit, cq in runs:
     bad = None
     for t in range(40):
@@ -476,19 +476,19 @@ def geometry_preserved(U, rep, tier):
       finally:
         avn.exact_mode()
     else:
-      raise AnalysisError('R13.4: no random point with all square-root arguments quadratic residues')
+      raise AnalysisError(rule + ': no random point with all square-root arguments quadratic residues')
     if not unit:
-      rep.check(bad is None, 'R13.4', 'non-unit quat attributes are read as MuJoCo reads them (normalised) when poses are composed',
+      rep.check(bad is None, rule, 'non-unit quat attributes are read as MuJoCo reads them (normalised) when poses are composed',
                 'a `quat` attribute that is not normalised (legal MJCF: MuJoCo normalises it) scales the offsets of the fused '
                 'body\'s children by |q|^2: after mjcf._fuse_bodies %s' % bad, where=f.where(),
                 construct='the same mock documents with GENERAL (non-unit) quaternions')
       continue
     if cq is not None:
-      rep.check(bad is None, 'R13.4', 'fusing preserves geometry [exact half-turn / 3-4-5 orientations, bodies with %s / nested %s]' % variant,
+      rep.check(bad is None, rule, 'fusing preserves geometry [exact half-turn / 3-4-5 orientations, bodies with %s / nested %s]' % variant,
                 'after mjcf._fuse_bodies %s (exact special orientations: compositions with scalar part exactly 0)' % bad, where=f.where(),
                 construct='quat attributes such as "0 1 0 0", "0 0.6 0.8 0": products land exactly on w == 0')
       continue
-    rep.check(bad is None, 'R13.4', 'fusing preserves geometry [jointless bodies with %s / nested %s]' % variant,
+    rep.check(bad is None, rule, 'fusing preserves geometry [jointless bodies with %s / nested %s]' % variant,
               'after mjcf._fuse_bodies %s (poses symbolic, quaternions unit by construction)' % bad,
               where=f.where(), construct='mock document: jointless bodies under the world, under a jointed body and nested; '
               'geoms by pos/quat, pos, fromto; a site; a jointed child body')
